@@ -62,6 +62,16 @@ theorem timed_not_early_in_order (xie : Bool) (progs : List (List Op)) (clock : 
   rw [List.pairwise_append] at h1 h2
   exact ⟨inv.nb, h1.1, h2.1⟩
 
+/-- **Cross order of timed and immediately-due actions within one gathering** ("in due-time order"): whenever
+the loop gathers (at any clock `c`, in any reachable state), no immediately-due item is placed before a timed
+item with an earlier due time — a pending timed action that is due earlier is never overtaken by an
+immediate one. -/
+theorem gather_cross_due_order (xie : Bool) (progs : List (List Op)) (clock : Int) (sched : List (Nat × Nat)) (c : Int) :
+    let s := (Sys.init progs clock).run xie sched
+    (merge c s.sh.queue s.sh.readyList).1.Pairwise CrossOk := by
+  have inv := (reach xie progs clock sched).e2
+  exact merge_cross c _ _ inv.kinds.1 inv.kinds.2 inv.qs
+
 /-- **An action cancelled before it starts never runs**: no `start id` is logged after a `cancel id` by
 any thread — "starts" being the loop's `is_cancelled()` read (see the header). -/
 theorem cancelled_before_check_never_runs (xie : Bool) (progs : List (List Op)) (clock : Int) (sched : List (Nat × Nat)) :
